@@ -29,8 +29,11 @@ class Tap:
     With no delays it behaves like bumble.transport.common.AsyncPipeSink.
     """
 
-    def __init__(self, name: str = '', delays=None, unit: float = 0.001):
+    def __init__(self, name: str = '', delays=None, unit: float = 0.001, direct: bool = False):
         self.name = name
+        # direct: like `host.controller = controller` (examples/): what the host sends reaches the controller
+        # synchronously, what the controller sends reaches the host one loop callback later - no extra hop
+        self.direct = direct
         self.loop = asyncio.get_running_loop()
         self.log: list[tuple[float, str, bytes]] = []
         self.unit = unit
@@ -58,6 +61,9 @@ class Tap:
         self._last[direction] = when
         # Timers with equal deadlines may fire in any order (heapq is not stable), so every
         # scheduled callback delivers the OLDEST queued packet of its direction: FIFO always.
+        if self.direct and when <= now and not self._queue[direction]:
+            self._deliver(direction, packet)
+            return
         self._queue[direction].append(packet)
         if when <= now:
             self.loop.call_soon(self._deliver_next, direction)
@@ -151,7 +157,7 @@ class Node:
     """One full Bumble device with its host, tap and controller."""
 
     def __init__(self, world, index: int, *, delays=None, classic=False, geometry=None,
-                 le_features=None, extended_adv=None, device_kwargs=None, configure=None):
+                 le_features=None, extended_adv=None, device_kwargs=None, configure=None, direct=False):
         self.world = world
         self.index = index
         self.controller = Controller(f'C{index}', link=world.link, public_address=public_addr(index))
@@ -160,7 +166,7 @@ class Node:
                 setattr(self.controller, k, v)
         if le_features is not None:
             self.controller.le_features = le_features
-        self.tap = Tap(f'T{index}', delays)
+        self.tap = Tap(f'T{index}', delays, direct=direct)
         self.host = Host()
         # host -> tap -> controller, controller -> tap -> host
         self.host.set_packet_sink(self.tap.to_controller)
@@ -195,7 +201,7 @@ class Node:
 
 class World:
     def __init__(self, n: int = 2, *, delays=None, classic=False, geometry=None, link_order=None,
-                 device_kwargs=None, configure=None, le_features=None):
+                 device_kwargs=None, configure=None, le_features=None, direct=False):
         self.link = OrderedLink(link_order)
         self.nodes: list[Node] = []
         for i in range(n):
@@ -203,7 +209,8 @@ class World:
             d = delays[i] if (delays and isinstance(delays[0], (list, tuple))) else delays
             self.nodes.append(
                 Node(self, i, delays=d, classic=classic, geometry=g, device_kwargs=device_kwargs,
-                     configure=configure, le_features=le_features)
+                     configure=configure, le_features=le_features,
+                     direct=direct[i] if isinstance(direct, (list, tuple)) else direct)
             )
 
     def __getitem__(self, i) -> Node:
